@@ -252,6 +252,10 @@ pub fn run_c13(ctx: &mut Ctx) {
         for dl in [last + 1, last + 2, 2 * last + 1, 3 * last + 1] {
             ctx.call("curve_ext", json!({"d": p, "how": "b", "arg": [dl, nj], "H": h}), curve_ext_call);
         }
+        // a bound that speaks about a LATER element must not be stored as the next one
+        for extra in [1u64, 3] {
+            ctx.call("curve_ext", json!({"d": p, "how": "b", "arg": [4 * last + 3, nj + extra], "H": h}), curve_ext_call);
+        }
     }
     let nr = if ctx.thorough { 8000 } else { 700 };
     for _ in 0..nr {
@@ -267,7 +271,10 @@ pub fn run_c13(ctx: &mut Ctx) {
         match which {
             0 => ctx.call("curve_ext", json!({"d": p, "how": "h", "arg": a1, "H": h}), curve_ext_call),
             1 => ctx.call("curve_ext", json!({"d": p, "how": "n", "arg": a2, "H": h}), curve_ext_call),
-            _ => ctx.call("curve_ext", json!({"d": p, "how": "b", "arg": [a3, p.len() as u64 + 2], "H": h}), curve_ext_call),
+            _ => {
+                let nj = p.len() as u64 + 2 + if a2 % 3 == 0 { a2 % 4 } else { 0 };
+                ctx.call("curve_ext", json!({"d": p, "how": "b", "arg": [a3 + (nj - p.len() as u64 - 2) * last, nj], "H": h}), curve_ext_call)
+            }
         }
     }
 }
